@@ -13,7 +13,7 @@ def showStored (s : St) : String :=
   let ids := sortNat (s.stored.map (·.id))
   ",".intercalate (ids.map fun i =>
     match find? s i with
-    | some l => toString i ++ (if l.irrevocable then "x" else "")
+    | some l => toString i ++ (if l.irrevocable && !s.sealed.contains l.ns then "x" else "")   -- a sealed namespace's entries cannot be read
     | none => toString i)
 
 /-- TTLs are compared rounded to the minute (the harness's wall clock moves a few seconds per case) -/
@@ -27,7 +27,8 @@ def showOut : Out → String
   | .bad => "bad-op"
 
 def showObs (s : St) : String :=
-  s!"st={showStored s}|pend={showIds s.pending}|irr={showIds s.irrevocable}|non={showIds s.nonexpiring}|rev={showIds s.revoked}|calls={s.calls}|unk=0" ++
+  let nsl := (s.stored.filter fun l => s.sealed.contains l.ns).map (·.id)
+  s!"st={showStored s}|pend={showIds s.pending}|irr={showIds s.irrevocable}|non={showIds s.nonexpiring}|rev={showIds s.revoked}|calls={s.calls}|unk=0|sealed={showIds s.sealed}|nsl={showIds nsl}|held={showIds (s.held.map (·.2))}|marks={showIds (s.marks.map (·.1)).eraseDups}|rm={s.restoreMode}" ++
   (if s.outOfFuel then "|OUT-OF-FUEL" else "")
 
 def b? (x : String) : Option Bool := match x with | "0" => some false | "1" => some true | _ => none
@@ -54,6 +55,12 @@ def parseOp (fs : List String) : Option Op :=
     | _ => none
   | ["freeze", x] => do pure (.freeze (← b? x))
   | ["restart", kind, now] => do let _ ← b? kind; pure (.restart (← now.toInt?))
+  | ["nsreg", ns, ttl, max, ren, now] => do
+    pure (.nsReg (← ns.toNat?) (← ttl.toInt?) (← max.toInt?) (← b? ren) (← now.toInt?))
+  | ["seal", ns] => do pure (.sealNs (← ns.toNat?))
+  | ["unseal", ns, now] => do pure (.unsealNs (← ns.toNat?) (← now.toInt?))
+  | ["unsealbegin", ns, h, now] => do pure (.unsealBegin (← ns.toNat?) (← h.toNat?) (← now.toInt?))
+  | ["unsealend", ns, now] => do pure (.unsealEnd (← ns.toNat?) (← now.toInt?))
   | _ => none
 
 def step (s : St) (fs : List String) : St × String :=
